@@ -2,6 +2,7 @@ import Dbg.Props.C08
 import Dbg.Props.C02
 import Dbg.Props.C09
 import Dbg.Model.Pipeline
+import Dbg.Lemmas.ShardTables
 /-! # C04 — Sharded assembly equals unsharded assembly
 
 The full statement (`C04_sharded_eq_direct_full`) is the deepest chain of the project: both pipelines equal the
@@ -44,5 +45,250 @@ def C04_link_shard {D : Type} := @Compress.C02_components D
 
 /-- link (iv), first half: re-compression merges every input node at most once and only non-censored ones -/
 def C04_link_recompress {D : Type} := @CompressGraph.C09_censored_excluded D
+
+/-! ## The shard tables are the one-pass table, cut by bucket -/
+
+open Filter (observations refTable refAllKmers pieceRead plainRead TilesRead AllTile Summarizer)
+open Msp (Piece bucketOf PermInj mspSequence)
+
+theorem mapM_some_cons {α β} (f : α → Option β) (a : α) (l : List α) (out : List β) (h : (a :: l).mapM f = some out) :
+    ∃ b bs, f a = some b ∧ l.mapM f = some bs ∧ out = b :: bs := by
+  rw [List.mapM_cons] at h
+  cases hb : f a with
+  | none => rw [hb] at h; cases h
+  | some b =>
+    rw [hb] at h
+    cases hbs : l.mapM f with
+    | none => rw [hbs] at h; cases h
+    | some bs =>
+      rw [hbs] at h
+      exact ⟨b, bs, rfl, rfl, by cases h; rfl⟩
+
+theorem allTile_of_mapM (K : Nat) (f : Seq → Option (List Piece)) :
+    ∀ (reads : List Seq) (pss : List (List Piece)), reads.mapM f = some pss →
+      (∀ r ∈ reads, ∀ ps, f r = some ps → TilesRead K r.toArray ps) → AllTile K reads pss := by
+  intro reads
+  induction reads with
+  | nil => intro pss h _; cases h; trivial
+  | cons r rs ih =>
+    intro pss h ht
+    obtain ⟨b, bs, h1, h2, rfl⟩ := mapM_some_cons f r rs pss h
+    exact ⟨ht r (List.mem_cons_self ..) b h1, ih bs h2 (fun r' hr' => ht r' (List.mem_cons_of_mem _ hr'))⟩
+
+theorem mem_of_mapM {α β} (f : α → Option β) :
+    ∀ (l : List α) (out : List β), l.mapM f = some out → ∀ b ∈ out, ∃ a ∈ l, f a = some b := by
+  intro l
+  induction l with
+  | nil => intro out h b hb; cases h; cases hb
+  | cons a l ih =>
+    intro out h b hb
+    obtain ⟨b0, bs, h1, h2, rfl⟩ := mapM_some_cons f a l out h
+    rcases List.mem_cons.mp hb with rfl | hb'
+    · exact ⟨a, List.mem_cons_self .., h1⟩
+    · obtain ⟨a', ha', e⟩ := ih bs h2 b hb'
+      exact ⟨a', List.mem_cons_of_mem _ ha', e⟩
+
+theorem eraseDups_nodup : ∀ (n : Nat) (l : List Nat), l.length ≤ n → l.eraseDups.Nodup := by
+  intro n
+  induction n with
+  | zero => intro l h; have : l = [] := List.length_eq_zero_iff.mp (by omega); subst this; simp
+  | succ n ih =>
+    intro l h
+    cases l with
+    | nil => simp
+    | cons a as =>
+      rw [List.eraseDups_cons, List.nodup_cons]
+      refine ⟨?_, ih _ (by have := List.length_filter_le (fun b => !b == a) as; simp at h; omega)⟩
+      rw [List.mem_eraseDups, List.mem_filter]
+      rintro ⟨_, h2⟩
+      simp at h2
+
+/-- the insertion loop of `shards` over a duplicate-free list: strictly ascending, same elements -/
+theorem sortBuckets_spec : ∀ (bs acc : List Nat), acc.Pairwise (· < ·) → bs.Nodup → (∀ b ∈ bs, b ∉ acc) →
+    (bs.foldl (fun acc b => (acc.takeWhile (· < b)) ++ [b] ++ (acc.dropWhile (· < b))) acc).Pairwise (· < ·) ∧
+    ∀ y, y ∈ bs.foldl (fun acc b => (acc.takeWhile (· < b)) ++ [b] ++ (acc.dropWhile (· < b))) acc ↔ y ∈ acc ∨ y ∈ bs := by
+  intro bs
+  induction bs with
+  | nil => intro acc h _ _; exact ⟨h, fun y => by simp⟩
+  | cons b bs ih =>
+    intro acc h hn hd
+    rw [List.nodup_cons] at hn
+    have hb : b ∉ acc := hd b (List.mem_cons_self ..)
+    have hins := Filter.insL_spec acc b h
+    have e : Filter.insL acc b = (acc.takeWhile (· < b)) ++ [b] ++ (acc.dropWhile (· < b)) := by
+      unfold Filter.insL; rw [if_neg (by simpa using hb)]
+    rw [e] at hins
+    rw [List.foldl_cons]
+    obtain ⟨i1, i2⟩ := ih _ hins.1 hn.2 (fun b' hb' hc => by
+      rcases (hins.2 b').mp hc with rfl | hc'
+      · exact hn.1 hb'
+      · exact hd b' (List.mem_cons_of_mem _ hb') hc')
+    refine ⟨i1, fun y => ?_⟩
+    rw [i2 y, hins.2 y, List.mem_cons]
+    constructor
+    · rintro ((h1 | h1) | h1)
+      · exact Or.inr (Or.inl h1)
+      · exact Or.inl h1
+      · exact Or.inr (Or.inr h1)
+    · rintro (h1 | h1 | h1)
+      · exact Or.inl (Or.inr h1)
+      · exact Or.inl (Or.inl h1)
+      · exact Or.inr h1
+
+/-- the conditions under which `msp_sequence` is within its contract for every read (the C08 hypotheses) -/
+structure ShardCfg (K P : Nat) (reads : List Seq) (perm : Option (Array Nat)) : Prop where
+  p1 : 1 ≤ P
+  pk : P ≤ K
+  k4 : 4 ≤ K
+  span : 2 * K - P ≤ 65535
+  short : ∀ r ∈ reads, r.length < 2 ^ 32
+  psize : (perm.getD (Array.range (4 ^ P))).size = 4 ^ P
+  pinj : PermInj (perm.getD (Array.range (4 ^ P)))
+  pval : ∀ i : Nat, i < (perm.getD (Array.range (4 ^ P))).size → (perm.getD (Array.range (4 ^ P)))[i]?.getD 0 < 2 ^ 64
+
+theorem mspSequence_getD (K P : Nat) (seq : Array Compress.Base) (perm : Option (Array Nat)) (rcMode : Bool) (m : Nat) :
+    mspSequence K P seq perm rcMode m = mspSequence K P seq (some (perm.getD (Array.range (4 ^ P)))) rcMode m := by
+  cases perm <;> rfl
+
+theorem mapM_total {α β} (f : α → Option β) : ∀ (l : List α), (∀ a ∈ l, ∃ b, f a = some b) → ∃ out, l.mapM f = some out := by
+  intro l
+  induction l with
+  | nil => intro _; exact ⟨[], rfl⟩
+  | cons a l ih =>
+    intro h
+    obtain ⟨b, hb⟩ := h a (List.mem_cons_self ..)
+    obtain ⟨bs, hbs⟩ := ih (fun a' ha' => h a' (List.mem_cons_of_mem _ ha'))
+    exact ⟨b :: bs, by rw [List.mapM_cons, hb, hbs]; rfl⟩
+
+theorem mem_observations_map {K : Nat} {st : Bool} (all : List Piece) (o : Seq × Exts × Nat)
+    (h : o ∈ observations K (all.map pieceRead) st) : ∃ pc ∈ all, o ∈ observations K [pieceRead pc] st := by
+  unfold observations at h ⊢
+  rw [List.mem_flatMap] at h
+  obtain ⟨r, hr, ho⟩ := h
+  rw [List.mem_map] at hr
+  obtain ⟨pc, hpc, rfl⟩ := hr
+  exact ⟨pc, hpc, by simpa using ho⟩
+
+/-- **C04, table level.** For every read set and every configuration inside `msp_sequence`'s contract: the shards are
+    produced (no panic), their bucket numbers are strictly ascending (so the shards are key-disjoint), and for every
+    shard the reference table of the shard's pieces is, row for row, the part of the one-pass reference table whose keys
+    fall into the shard's bucket — same keys, same extension sets, same counts/labels, same order — and the shard's
+    list of all k-mers is the corresponding part of the one-pass list.  Every row of the one-pass table lies in the
+    shard of its key's bucket. -/
+theorem C04_shard_tables (K P : Nat) (reads : List Seq) (perm : Option (Array Nat)) (st : Bool) (sm : Summarizer)
+    (cfg : ShardCfg K P reads perm) :
+    ∃ shs, shards K P reads perm (!st) = some shs ∧
+      (shs.map (·.1)).Pairwise (· < ·) ∧
+      (∀ sh ∈ shs,
+        refTable K sh.2 sm st = (refTable K (reads.map plainRead) sm st).filter
+          (fun e => bucketOf (perm.getD (Array.range (4 ^ P))) (!st) P e.key == sh.1) ∧
+        refAllKmers K sh.2 st = (refAllKmers K (reads.map plainRead) st).filter
+          (fun k => bucketOf (perm.getD (Array.range (4 ^ P))) (!st) P k == sh.1)) ∧
+      (∀ k ∈ refAllKmers K (reads.map plainRead) st,
+        ∃ sh ∈ shs, sh.1 = bucketOf (perm.getD (Array.range (4 ^ P))) (!st) P k) := by
+  have hK1 : 1 ≤ K := by have := cfg.k4; omega
+  -- every read is split, and split into a tiling
+  have hsplit : ∀ r ∈ reads, ∃ ps, mspSequence K P r.toArray perm (!st) (2 ^ 64 - 1) = some ps ∧ TilesRead K r.toArray ps := by
+    intro r hr
+    have hsz : r.toArray.size < 2 ^ 32 := by simpa using cfg.short r hr
+    exact Msp.C08_pieces_exact K P r.toArray perm (!st) (2 ^ 64 - 1) cfg.p1 cfg.pk hsz cfg.span
+      (by have := cfg.span; omega) (by rw [cfg.psize]; exact Nat.le_refl _) cfg.pval
+  obtain ⟨pss, hpss⟩ := mapM_total (fun r : Seq => mspSequence K P r.toArray perm (!st) (2 ^ 64 - 1)) reads
+    (fun r hr => by obtain ⟨ps, h1, _⟩ := hsplit r hr; exact ⟨ps, h1⟩)
+  have htile : AllTile K reads pss := allTile_of_mapM K _ reads pss hpss (fun r hr ps hps => by
+    obtain ⟨ps', h1, h2⟩ := hsplit r hr
+    rw [h1] at hps; cases hps; exact h2)
+  -- purity of every piece
+  have hpure : ∀ pc ∈ pss.flatten, ∀ o ∈ observations K [pieceRead pc] st,
+      bucketOf (perm.getD (Array.range (4 ^ P))) (!st) P o.1 = pc.bucket := by
+    intro pc hpc
+    rw [List.mem_flatten] at hpc
+    obtain ⟨ps, hps, hpc⟩ := hpc
+    obtain ⟨r, hr, hf⟩ := mem_of_mapM _ reads pss hpss ps hps
+    apply Filter.piece_obs_bucket K P cfg.pk _ cfg.psize cfg.pinj st pc
+    obtain ⟨ps', h1, h2⟩ := hsplit r hr
+    have e : ps' = ps := Option.some.inj (h1.symm.trans hf)
+    subst e
+    by_cases hs : r.toArray.size < K
+    · unfold TilesRead at h2; rw [if_pos hs] at h2; subst h2; cases hpc
+    · rw [mspSequence_getD] at h1
+      exact Msp.C08_bucket_pure K P r.toArray _ (!st) (2 ^ 64 - 1) ps' cfg.p1 cfg.pk (by omega)
+        (by simpa using cfg.short r hr) cfg.span cfg.psize cfg.pinj cfg.pval h1 pc hpc
+  have hobs := Filter.reads_observations K hK1 st reads pss htile
+  -- the bucket list
+  have hsorted := sortBuckets_spec ((pss.flatten.map (·.bucket)).eraseDups) [] List.Pairwise.nil
+    (eraseDups_nodup _ _ (Nat.le_refl _)) (fun _ _ h => by cases h)
+  refine ⟨_, by unfold shards; simp only; rw [hpss], ?_, ?_, ?_⟩
+  · rw [List.map_map]
+    have : ((fun (x : Nat × List (Seq × Exts × Nat)) => x.1) ∘ fun b =>
+        (b, ((pss.flatten.filter (·.bucket == b)).map fun pc => (pc.seq, (⟨pc.exts⟩ : Exts), 0)))) = id := by
+      funext b; rfl
+    rw [this, List.map_id]
+    exact hsorted.1
+  · intro sh hsh
+    rw [List.mem_map] at hsh
+    obtain ⟨b, _, rfl⟩ := hsh
+    simp only
+    apply Filter.table_restrict K _ _ sm st (fun k => bucketOf (perm.getD (Array.range (4 ^ P))) (!st) P k == b)
+    rw [← hobs]
+    exact Filter.shard_observations K st pss.flatten (·.bucket == b)
+      (fun k => bucketOf (perm.getD (Array.range (4 ^ P))) (!st) P k == b) (fun pc hpc o ho => by
+      show (bucketOf (perm.getD (Array.range (4 ^ P))) (!st) P o.1 == b) = (pc.bucket == b)
+      rw [hpure pc hpc o ho])
+  · intro k hk
+    unfold refAllKmers at hk
+    rw [Filter.refGroups_eq, Filter.groupsOf, List.map_map, List.mem_map] at hk
+    obtain ⟨k', hk', rfl⟩ := hk
+    obtain ⟨o, ho, e⟩ := ((Filter.distinctKeys_spec _).2 k').mp hk'
+    rw [← hobs] at ho
+    obtain ⟨pc, hpc, hopc⟩ := mem_observations_map _ o ho
+    have hb := hpure pc hpc o hopc
+    have hmem : pc.bucket ∈ (pss.flatten.map (·.bucket)).eraseDups := by
+      rw [List.mem_eraseDups]; exact List.mem_map_of_mem hpc
+    refine ⟨_, List.mem_map_of_mem ((hsorted.2 pc.bucket).mpr (Or.inr hmem)), ?_⟩
+    simp only [Function.comp, Filter.obsOf]
+    rw [← e, hb]
+
+/-- the same for the model of `filter_kmers` itself (any memory budget, hence any number of bucket passes, on either side) -/
+theorem C04_shard_filter (K P : Nat) (reads : List Seq) (perm : Option (Array Nat)) (st : Bool) (sm : Summarizer)
+    (cfg : ShardCfg K P reads perm) (ra : Bool) (mem mem' bpu sz : Nat) (hm : 1 ≤ mem) (hm' : 1 ≤ mem') (hb : 1 ≤ bpu) :
+    ∃ shs full, shards K P reads perm (!st) = some shs ∧
+      Filter.filterKmers K (reads.map plainRead) sm st ra mem' bpu sz = some full ∧
+      ∀ sh ∈ shs, ∃ part, Filter.filterKmers K sh.2 sm st ra mem bpu sz = some part ∧
+        part.table = full.table.filter (fun e => bucketOf (perm.getD (Array.range (4 ^ P))) (!st) P e.key == sh.1) ∧
+        part.allKmers = full.allKmers.filter (fun k => bucketOf (perm.getD (Array.range (4 ^ P))) (!st) P k == sh.1) := by
+  obtain ⟨shs, h1, _, h3, _⟩ := C04_shard_tables K P reads perm st sm cfg
+  obtain ⟨full, f1, f2, f3⟩ := Filter.filterKmers_eq_ref K (reads.map plainRead) sm st ra mem' bpu sz cfg.k4 hm' hb
+  refine ⟨shs, full, h1, f1, fun sh hsh => ?_⟩
+  obtain ⟨part, p1, p2, p3⟩ := Filter.filterKmers_eq_ref K sh.2 sm st ra mem bpu sz cfg.k4 hm hb
+  refine ⟨part, p1, ?_, ?_⟩
+  · rw [p2, f2]; exact (h3 sh hsh).1
+  · rw [p3, f3]
+    cases ra with
+    | true => simp only [if_true]; exact (h3 sh hsh).2
+    | false => simp
+
+theorem permInj_range (n : Nat) : PermInj (Array.range n) := by
+  intro i j hi hj h
+  simp only [Array.size_range] at hi hj
+  rw [Array.getElem?_eq_getElem (by simpa using hi), Array.getElem?_eq_getElem (by simpa using hj)] at h
+  simpa using h
+
+/-- the hypotheses are satisfiable: the default permutation with any `1 ≤ P ≤ K`, `4 ≤ K`, `2K - P ≤ 65535` and reads
+    shorter than 2^32 -/
+theorem shardCfg_default (K P : Nat) (reads : List Seq) (h1 : 1 ≤ P) (h2 : P ≤ K) (h3 : 4 ≤ K) (h4 : 2 * K - P ≤ 65535)
+    (h5 : ∀ r ∈ reads, r.length < 2 ^ 32) (h6 : 4 ^ P ≤ 2 ^ 64) : ShardCfg K P reads none where
+  p1 := h1
+  pk := h2
+  k4 := h3
+  span := h4
+  short := h5
+  psize := by simp
+  pinj := permInj_range _
+  pval := by
+    intro i hi
+    simp only [Option.getD_none, Array.size_range] at hi ⊢
+    rw [Array.getElem?_eq_getElem (by simpa using hi)]
+    simp; omega
 
 end Pipeline
